@@ -38,6 +38,7 @@ ASSUMPTIONS = ["documents from the claimed space only (harness/simpledocs.py imp
                "comparison is set-based against unified() (RDF is a set of triples); only the default TriG syntax"]
 
 PROVU = "http://www.w3.org/ns/prov#"
+ELEMENT_LEVEL = True
 
 
 def sc_doc(d):
@@ -443,6 +444,119 @@ def value_correspondence():
     return len(cases), bad, dict(stats), fails
 
 
+def element_correspondence(tier, seed):
+    """model RdfVal.rdf_element_triples / rdf_read_element vs the implementation: one element with several attributes
+    (several values per attribute, every claimed value kind, prov:type / label / location / value and activity times):
+    the triples written for the subject and the record read back"""
+    import datetime
+    import prov.model as M
+    from harness import impl as I
+    from prov.identifier import Identifier, Namespace
+    from rdflib import ConjunctiveGraph, URIRef, Literal
+    rng = random.Random(seed * 7919 + 13)
+    EXU, ZZU = "http://example.org/", "http://zz.test/ns#"
+    EX, ZZ = Namespace("ex", EXU), Namespace("zz", ZZU)
+    tz = datetime.timezone
+    names = [EX["k"], EX["k2"], ZZ["size"], EX["x/y"], M.PROV["type"], M.PROV["label"], M.PROV["location"], M.PROV["value"], EX["été"]]
+    values = ["", "plain", "two\nlines", 'quo"te', "ünï \U0001F600", "1", "true", 0, 1, -7, 10 ** 20, True, False,
+              datetime.datetime(2012, 3, 31, 9, 21), datetime.datetime(2012, 3, 31, 9, 21, 0, 5, tzinfo=tz.utc),
+              datetime.datetime(1999, 12, 31, 23, 59, 59, 999999, tzinfo=tz(datetime.timedelta(minutes=330))),
+              Identifier("http://u/x"), Identifier(EXU + "e"), EX["e"], ZZ["T"], EX["x/y"], EX["a/" + EXU + "b"],
+              M.Literal("x", langtag="en"), M.Literal("deux", langtag="fr-CA"), M.Literal("abc", EX["MyType"])]
+    n = 150 if tier == "quick" else 1500
+    cases, reqs = [], []
+    for i in range(n):
+        kind = rng.choice(["Entity", "Agent", "Activity"])
+        d = M.ProvDocument()
+        d.add_namespace(EX); d.add_namespace(ZZ)
+        attrs = []
+        for _ in range(rng.choice([0, 1, 2, 3, 5])):
+            a = rng.choice(names)
+            v = rng.choice(values)
+            if a == M.PROV["value"] and any(x == a for x, _ in attrs):
+                continue
+            attrs.append((a, v))
+        if kind == "Activity":
+            t1 = rng.choice([None, datetime.datetime(2012, 3, 31, 9, 21), datetime.datetime(2012, 4, 1, 0, 0, 1, tzinfo=tz.utc)])
+            t2 = rng.choice([None, datetime.datetime(2013, 1, 1, 12, 0)])
+            r = d.activity(EX["s%d" % i], t1, t2, attrs)
+        else:
+            r = d.new_record(M.PROV[kind], EX["s%d" % i], None, attrs)
+        stored = [[I.sx_qn(a), I.sx_value(v)] for a, v in r.attributes]
+        try:
+            text = d.serialize(format="rdf")
+            g = ConjunctiveGraph()
+            g.parse(data=text, format="trig")
+            trip = [(str(p_), o_) for s_, p_, o_ in g.triples((URIRef(EXU + "s%d" % i), None, None))]
+            nss = [[p_, str(u_)] for p_, u_ in g.namespaces()]
+            d2 = M.ProvDocument.deserialize(content=text, format="rdf")
+            recs = list(d2.get_records())
+            back = [[I.KIND_OF[type(x)], x.identifier.uri, sorted([[a.uri, I.sx_value(v)] for a, v in x.attributes], key=repr)] for x in recs]
+            err = None
+        except Exception as ex_:
+            trip, nss, back, err = [], [], [], type(ex_).__name__ + ": " + str(ex_)[:200]
+        cases.append((kind, d.get_provn(), trip, back, err))
+        reqs.append(dumps(["rdfelem", nss, kind, I.sx_qn(EX["s%d" % i]), stored]))
+    outs = [loads(x) for x in common.run_model_batch(reqs)]
+    bad = []
+    stats = Counter()
+
+    def term(o_):
+        if isinstance(o_, Literal):
+            return ["lit", str(o_), ["some", str(o_.datatype)] if o_.datatype is not None else "none",
+                    ["some", o_.language] if o_.language is not None else "none"]
+        return ["uri", str(o_)]
+
+    def strip_ns(x):
+        if isinstance(x, list) and len(x) == 4 and x[0] == "qn":
+            return ["qn-uri", x[2] + x[3]]
+        if isinstance(x, list):
+            return [strip_ns(y) for y in x]
+        return x
+
+    def canon(l):
+        return sorted((json.dumps(x, sort_keys=True) for x in l))
+    for (kind, provn, trip, back, err), out in zip(cases, outs):
+        if out == "ood":
+            stats["outside the model"] += 1
+            continue
+        if not isinstance(out, list) or len(out) != 2:
+            bad.append({"document": provn[:600], "model": str(out)[:200]})
+            continue
+        mtrip, mback = out
+        if err is not None:
+            if isinstance(mback, list) and mback[0] == "raise":
+                stats["both raise"] += 1
+            else:
+                bad.append({"document": provn[:600], "implementation_error": err, "model": str(mback)[:200]})
+            continue
+        cls = [x for x in trip if x[0].endswith("22-rdf-syntax-ns#type") and str(x[1]) == M.PROV[kind].uri]
+        rest = list(trip)
+        if cls:
+            rest.remove(cls[0])
+        itrip = canon([[p_, term(o_)] for p_, o_ in rest])
+        mset = canon([json.loads(y) for y in {json.dumps(x) for x in mtrip}])       # a graph is a set of triples
+        if itrip != mset:
+            bad.append({"document": provn[:600], "what": "the triples written for the subject differ",
+                        "model_only": [x for x in mset if x not in itrip][:3], "implementation_only": [x for x in itrip if x not in mset][:3]})
+            continue
+        if mback == "ood":
+            stats["reading outside the model"] += 1
+            continue
+        if mback[0] != "ok":
+            bad.append({"document": provn[:600], "what": "the model's reader refuses", "model": str(mback)[:200]})
+            continue
+        mrec = mback[1]        # ["rec", kind, id qn, [[attr qn, [values]] ...]]
+        mattrs = sorted([[a[2] + a[3], strip_ns(v)] for a, vs in mrec[3] for v in vs], key=repr)
+        want = [[mrec[1], mrec[2][2] + mrec[2][3], mattrs]]
+        got = [[k_, u_, sorted([[a_, strip_ns(v_)] for a_, v_ in at_], key=repr)] for k_, u_, at_ in back]
+        if want != got:
+            bad.append({"document": provn[:600], "what": "the record read back differs", "model": want, "implementation": got})
+            continue
+        stats["agree"] += 1
+    return len(cases), bad, dict(stats)
+
+
 def custom_name_finding():
     """C07-F1 witness: a custom attribute whose URI contains 'activity' on a communication"""
     import prov.model as M
@@ -576,6 +690,14 @@ def run(tier, seed, log, model_runs=True, enlarged=False):
                                   "theorem": "correspondence RdfVal.rdf_encode / enc_elem_pred / rdf_attr_back ~ provrdf "
                                              "encode_rdf_representation / encode_container / decode_rdf_representation / decode_container "
                                              "(theorems C07_value_*, C07_attribute_roundtrip are stated over the model)"})
+        t4 = time.time()
+        nel, bad4, estats = element_correspondence(tier, seed) if ELEMENT_LEVEL else (0, [], {})
+        npred += nel
+        log("element correspondence: %d elements, %d disagreements in %.1fs (%s)" % (nel, len(bad4), time.time() - t4, estats))
+        for b in bad4[:2]:
+            disagreements.append({"first_difference": json.dumps(b, ensure_ascii=False)[:1400],
+                                  "theorem": "correspondence RdfVal.rdf_element_triples / rdf_read_element ~ provrdf encode_container / "
+                                             "decode_container for one element (theorem C07_element_roundtrip is stated over the model)"})
     known = common.load_known_findings()
     known_lines = []
     witnesses = {"C07-F1": custom_name_finding, "C07-F2": alternate_finding, "C07-F3": scheme_prefix_finding}
